@@ -560,6 +560,15 @@ impl EmitScope {
             return Some(resolved.clone());
         }
 
+        // `stitch.label` written inside another stitch of the same knot
+        if let Some(top) = self.top_flow_name.as_deref()
+            && let Some(resolved) = context
+                .qualified_choice_labels
+                .get(&format!("{top}.{target}"))
+        {
+            return Some(resolved.clone());
+        }
+
         let (prefix, label) = target.rsplit_once('.')?;
         let resolved = self.resolve_choice_label(label)?;
         let prefix_with_dot = format!("{prefix}.");
